@@ -759,7 +759,7 @@ func runSysCase(c sysCase, col *collector, sec *vh.Section) {
 			case werr == nil:
 				// acknowledged: every event must be served back
 				if !wfOK {
-					specFail(st, "unparsable-fields-dropped", "", "a write whose write-level field text does not parse is acknowledged", "acknowledged", "rejected")
+					specFail(st, "malformed-write-fields-acked", "", "a write whose write-level field text does not parse is acknowledged (it must be rejected)", "acknowledged", "rejected")
 				}
 				if cutShort {
 					specFail(st, "truncated-packet-acked", "F20b", // class: proper prefix of a well-formed packet, cut inside the events area
@@ -1014,6 +1014,22 @@ func genSysCase(r *vh.Rng, thorough bool) sysCase {
 		}
 		if allowBad && op.Via != "direct" && len(op.Evs) > 0 && r.Chance(1, 2) {
 			op.Evs[r.Intn(len(op.Evs))].Fields = HS(r.PickS(invalidFieldTexts[:3]))
+		}
+		// adjacent events of identical layout (equal message length, fields of equal encoded length) but different field
+		// values: a reader that compares an event's fields with a stale alias of the previous event's would mix them up
+		if c.MaxRec == 0 && len(op.Evs) >= 2 && r.Chance(1, 3) {
+			vals := []string{"k=a", "k=b", "j=a", "k=c", "j=b"}
+			l := r.PickI([]int{0, 1, 5})
+			for i := range op.Evs {
+				op.Evs[i].Msg = HS(genBytes(r, l))
+				op.Evs[i].Fields = HS(vals[(i+r.Intn(2))%len(vals)])
+			}
+		}
+		// a malformed WRITE-LEVEL field text (value longer than 255 bytes, empty name, key without value, unterminated
+		// quote, …): the whole write must be rejected
+		if op.Via != "direct" && r.Chance(1, 8) {
+			op.WFields = HS(r.PickS(invalidFieldTexts))
+			op.Cut = 0
 		}
 		c.Ops = append(c.Ops, op)
 	}
